@@ -59,7 +59,7 @@ def run(chk, st, tier):
             if ch in "KP":
                 acc = next((x for x in res[2:] if x.startswith("%d:" % cut)), "")
                 chk.fail("%s|c%d|p%d|%s|cut-class=%s" % (w.shape.name, w.codec, w.max, w.history(), "accepted" if ch == "K" else "panic"),
-                         "%s truncated to %d of %d bytes is %s (%s)" % (w.describe(), cut, len(f), "accepted as a valid file" if ch == "K" else "makes the reader panic", acc),
+                         "%s truncated to %d of %d bytes %s (%s)" % (w.describe(), cut, len(f), "is accepted as a valid file" if ch == "K" else "makes the reader panic", acc),
                          dict(w.replay(), cut=cut, file=C.hexs(f)[:20000]))
                 break
         # model vs implementation where the verdict does not depend on the thrift decoder on garbage:
